@@ -193,6 +193,12 @@ func (ic *inferContext) inferRelTypesFromPremise(premises []ast.Term, state *inf
 		} else {
 			alternatives, err = bc.getOrInferRelTypes(atom.Predicate, atom.Args, state.asMap(), typeCtx)
 		}
+		if !atom.Predicate.IsBuiltin() {
+			// The negation of a stored or derived predicate holds whenever the atom does not,
+			// in particular when no alternative of the predicate admits the arguments: the
+			// state stays as it is.
+			return []*inferState{state.makeNext()}, nil
+		}
 		if err != nil {
 			return nil, fmt.Errorf("type mismatch %v : %v ", premise, err)
 		}
